@@ -766,6 +766,23 @@ fn views_oracle(oi: usize, h: &dyn Hist, m: &Model, st: &mut Stats) -> Result<()
             ));
         }
     }
+    // the same items through the standard iterator adaptors
+    let k = 1 + (oi % len.max(1));
+    let want_nth = items.get(k % len).copied();
+    if h.iter_nth(k % len) != want_nth {
+        return Err(Viol::new("Histogram:iter_adaptors", format!("after op {}: iter().nth({}) = {:?} expected {:?}", oi, k % len, h.iter_nth(k % len), want_nth)));
+    }
+    if h.iter_skip(k % len) != items[(k % len)..].to_vec() {
+        return Err(Viol::new("Histogram:iter_adaptors", format!("after op {}: iter().skip({}) differs from the tail of iter()", oi, k % len)));
+    }
+    let stepped: Vec<((f64, f64), u64)> = items.iter().copied().step_by(k).collect();
+    if h.iter_step_by(k) != stepped {
+        return Err(Viol::new("Histogram:iter_adaptors", format!("after op {}: iter().step_by({}) = {:?} expected {:?}", oi, k, h.iter_step_by(k), stepped)));
+    }
+    let (cnt_items, last) = h.iter_count_last();
+    if cnt_items != len || last != items.last().copied() {
+        return Err(Viol::new("Histogram:iter_adaptors", format!("after op {}: iter().count() = {}, last() = {:?}", oi, cnt_items, last)));
+    }
     let w = h.widths();
     let c = h.centers();
     let nb = h.normalized_bins();
@@ -777,20 +794,31 @@ fn views_oracle(oi: usize, h: &dyn Hist, m: &Model, st: &mut Stats) -> Result<()
     for i in 0..len {
         let (lo, hi) = (m.edges[i], m.edges[i + 1]);
         let cnt = m.counts[i] as u64 as f64;
-        if !same_bits(w[i], hi - lo) {
+        // derived views: equal up to a couple of roundings of the stated formula (a refactoring such
+        // as (a+b)/2 vs 0.5*(a+b) must not alarm); infinities and NaN must match exactly
+        let close = |got: f64, want: f64| -> bool {
+            if same_bits(got, want) || got == want {
+                return true;
+            }
+            if !got.is_finite() || !want.is_finite() {
+                return false;
+            }
+            (got - want).abs() <= 4.0 * U * want.abs().max(f64::MIN_POSITIVE)
+        };
+        if !close(w[i], hi - lo) {
             return Err(Viol::new("Histogram:widths", format!("after op {}: widths[{}] = {:e} expected {:e}", oi, i, w[i], hi - lo)));
         }
-        if !same_bits(c[i], 0.5 * (lo + hi)) && !same_bits(c[i], (lo + hi) / 2.0) {
+        if !close(c[i], 0.5 * (lo + hi)) {
             return Err(Viol::new("Histogram:centers", format!("after op {}: centers[{}] = {:e} expected {:e}", oi, i, c[i], 0.5 * (lo + hi))));
         }
-        if !same_bits(nb[i], cnt / (hi - lo)) {
+        if !close(nb[i], cnt / (hi - lo)) {
             return Err(Viol::new(
                 "Histogram:normalized_bins",
                 format!("after op {}: normalized_bins[{}] = {:e} expected {:e}", oi, i, nb[i], cnt / (hi - lo)),
             ));
         }
         let v = h.variance(i);
-        if !same_bits(v, vs[i]) {
+        if !(same_bits(v, vs[i]) || (v - vs[i]).abs() <= 8.0 * U * cnt.max(1.0)) {
             return Err(Viol::new(
                 "Histogram:variance_vs_variances",
                 format!("after op {}: variance({}) = {:e} but variances()[{}] = {:e}", oi, i, v, i, vs[i]),
